@@ -308,9 +308,11 @@ Proof. exact floor_guard_refuted. Qed.
 (* ---- verbs are functions of the operand VALUES: no eval_* function stores into a parameter (regenerated flag), so an
    operand object that is used again — a literal in a function body called twice, a variable, the body of Each — has
    the same value at every use: every call returns what the verb returns on that value, and the operand is unchanged ---- *)
+(* the scan treats arrays returned by str_to_char_array / kg_asarray / np.array as fresh objects: the second flag says no
+   backend helper hands out a cached or module-level array (a memoised character array would be written by Amend) *)
 Theorem C01_operands_are_not_written : forall (verb : val -> val -> res) a bs,
-  run_shared verbs_do_not_write_operands verb (Some a) bs = (map (verb a) bs, Some a).
-Proof. exact (shared_operand verbs_do_not_write_operands eq_refl). Qed.
+  run_shared (verbs_do_not_write_operands && no_cached_arrays_in_backends) verb (Some a) bs = (map (verb a) bs, Some a).
+Proof. exact (shared_operand (verbs_do_not_write_operands && no_cached_arrays_in_backends) eq_refl). Qed.
 Print Assumptions C01_operands_are_not_written.
 Theorem C01_operand_write_refuted : forall (verb : val -> val -> res) a b1 b2,
   fst (run_shared false verb (Some a) [b1; b2]) = [verb a b1; Unmod].
